@@ -1,4 +1,4 @@
-\* random behaviours for direction A (run with -simulate): full universe, capacity 2 (evictions), property version
+\* scripted scenarios 1-14 (capacity 2)
 SPECIFICATION MCScriptSpec
 CONSTANTS
   Atoms <- AtomsFull
@@ -20,6 +20,8 @@ CONSTANTS
   FeeOnRemainder = TRUE
   EvictMode = "nodeps"
   ReconcileMature = TRUE
+  NrdEnabled = FALSE
+  NrdHeight = 9
   ShortReorg = FALSE
   MaxBlocks = 6
   MaxSteps = 40
